@@ -253,7 +253,11 @@ def doc_snapshot(doc):
         if name.endswith("/") or name in ("content.xml", "styles.xml", "meta.xml", "settings.xml", "META-INF/manifest.xml"):
             continue
         try:
-            out[name] = doc.container.get_part(name)
+            if name.endswith(("/content.xml", "/styles.xml", "/meta.xml", "/settings.xml")) and not name.startswith("META-INF"):
+                # sub-document of an embedded object: the document may hold it parsed (and edited)
+                out[name] = odfread.c14n(doc.get_part(name).serialize())
+            else:
+                out[name] = doc.container.get_part(name)
         except ValueError:
             out[name] = "deleted"
     return out
@@ -309,6 +313,21 @@ def doc_edit(doc, e, n):
         if names:
             doc.del_part(sorted(names)[0])
             return ("deleted", sorted(names)[0], None)
+        return None
+    if k == "generator":
+        doc.meta.generator = f"custom generator {n}"
+        return ("meta", f"custom generator {n}")
+    if k == "object":
+        # an embedded sub-document (chart...) edited through the document
+        names = sorted(x for x in doc.get_parts() if x.count("/") == 1 and x.endswith("/content.xml") and not x.startswith("META-INF"))
+        if names:
+            from odfdo import Element
+
+            part = doc.get_part(names[0])
+            el = Element.from_tag("text:p")
+            el.text = f"CLONETOK{n}"
+            part.root.append(el)
+            return (names[0], f"CLONETOK{n}")
         return None
     if k == "read":
         doc.styles.root  # noqa: B018
@@ -416,6 +435,29 @@ def run_document(case, ctx):
                         continue
                     ctx.check(tok.encode() in c.get_part(part).serialize(), ("C10", "Document.clone", "unsaved-edit-missing"),
                               f"edit {tok} made before cloning is not in the clone's {part}", case)
+                if case.get("save_both", True):
+                    # indistinguishable when taken: saved right away, both give the same package
+                    def saved(d):
+                        buf = io.BytesIO()
+                        d.save(buf)
+                        return {k_.replace("\\", "/"): v for k_, v in odfread.read_zip(buf.getvalue())[1].items()}
+
+                    so, sc = saved(doc), saved(c)
+                    ctx.check(set(so) == set(sc), ("C10", "Document.clone", "saved-parts-differ"),
+                              f"saved right after cloning: only original {sorted(set(so) - set(sc))}, only clone {sorted(set(sc) - set(so))}", case)
+                    for name in sorted(set(so) & set(sc)):
+                        if name.endswith("/"):
+                            continue
+                        same_ = (odfread.c14n(so[name]) == odfread.c14n(sc[name])) if name.endswith(".xml") and so[name].strip() and sc[name].strip() else so[name] == sc[name]
+                        ctx.check(same_, ("C10", "Document.clone", "saved-differs", name.split("/")[-1]),
+                                  f"{name} saved from the clone differs from {name} saved from the original right after cloning "
+                                  f"(unsaved edits: {[e['k'] for e in case['pre']]})", case)
+                    for part, tok in toks:
+                        if part in so and part != "meta":
+                            ctx.check(tok.encode() in so[part] and tok.encode() in sc[part], ("C10", "Document.clone", "unsaved-edit-missing"),
+                                      f"edit {tok} of {part} made before cloning: in saved original {tok.encode() in so[part]}, in saved clone {tok.encode() in sc[part]}", case)
+                    before = doc_snapshot(doc)
+                    birth = doc_snapshot(c)
                 twins = {"o": doc, "c": c}
                 snaps = {"o": before, "c": birth}
                 for n, (side, e) in enumerate(case["edits"]):
@@ -539,10 +581,10 @@ def run_shard(ctx):
         if p.stat().st_size < (400_000 if ctx.thorough else 40_000):
             for how in ("path", "bytesio", "folder"):
                 srcs.append({"kind": "sample", "name": p.name, "how": how})
-    dedit = st.fixed_dictionaries({"k": st.sampled_from(["paragraph", "meta", "add_file", "set_part", "del_part", "read", "save"])})
+    dedit = st.fixed_dictionaries({"k": st.sampled_from(["paragraph", "meta", "add_file", "set_part", "del_part", "read", "save", "generator", "object"])})
     dcases = st.fixed_dictionaries({"kind": st.just("document"), "source": st.sampled_from(srcs), "what": st.sampled_from(["document", "document", "xmlpart", "xmlpart", "container"]),
                                     "pre": st.lists(dedit, max_size=3), "edits": st.lists(st.tuples(side, dedit), min_size=1, max_size=4),
                                     "part": st.sampled_from(["content", "styles", "meta", "meta", "settings", "manifest"]),
                                     "pwarm": st.lists(st.sampled_from(["root", "body", "getters", "edit", "serialize"]), max_size=3),
-                                    "pedits": st.lists(st.tuples(side, st.integers(0, 7)), min_size=1, max_size=5)})
+                                    "pedits": st.lists(st.tuples(side, st.integers(0, 7)), min_size=1, max_size=5), "save_both": st.booleans()})
     ctx.run_given(mk(dcases), ctx.budget(1600, 20000), salt=4)
